@@ -130,7 +130,7 @@ func init() {
 	fw.Register(&fw.Prop{
 		ID:         "C09",
 		Rule:       "(a) packed groups, exhaustively, each with all neighbouring fields at zero and at all-ones: VLAN TCI 2^16 (standalone and inside an Ethernet frame, including VID 0), IPv4 version x IHL 5..15 with matching options, DSCP/ECN 2^8, flags/fragment offset 2^16, IPv6 version x class 2^12, flow label 2^20, class x label edge patterns, TCP offset x flags 2^10, fragment offset/M 2^14, IGMPv3 S/QRV 2^4; (b) generated well-formed headers of every kind (Ethernet with/without tag over IPv4/IPv6/ARP/opaque; IPv4 with options over ICMP/UDP/opaque protocols; IPv6 with every chain of hop-by-hop/routing/fragment headers in any order over ICMP/UDP/opaque; TCP; IGMPv1/2, IGMPv3 query/record/report with 0..40 sources and records; DHCP with 0..12 options incl. pads; LLDP). For each: the library's encoding must equal the reference (RFC) encoding, Len() = bytes, decoding the reference bytes must give the recipe's fields and the payload kind of the demultiplexing table, decode(encode(v)) = v, re-encoding reproduces the bytes and the decoded value's Len() is the bytes consumed. distinct = hash(recipe); non-trivial = a packed-group member, or a header with a payload or a non-empty list",
-		NumCases:   func(tier string, seed uint64) int { return len(c09PackedList) + nCases(tier, 60000, 24000000) },
+		NumCases:   func(tier string, seed uint64) int { return len(c09PackedList) + nCases(tier, 200000, 24000000) },
 		Gen:        c09Gen,
 		NewCase:    func() any { return new(c09Case) },
 		Eval:       c09Eval,
